@@ -247,11 +247,13 @@ class Impl:
         self.tmp = None
         ns, nr, nq = case['shape']
         self.src_names = [f'TxED-{i + 1}' for i in range(ns)]
-        self.rec_names = [f'RxEP-{j + 1}' for j in range(nr)]
+        rtypes = case.get('rec_type') or ['E'] * nr
+        self.rec_names = [f"Rx{t}P-{j + 1}" for j, t in enumerate(rtypes)]
         self.frq_names = [f'f-{k + 1}' for k in range(nq)]
         src = [emg3d.TxElectricDipole((*map(float, xyz), 0.0, 0.0)) for xyz in case['src_xyz']]
-        rec = [emg3d.RxElectricPoint((*map(float, xyz), 0.0, 0.0), relative=bool(rel))
-               for xyz, rel in zip(case['rec_xyz'], case['rec_rel'])]
+        rec = [(emg3d.RxMagneticPoint if t == 'M' else emg3d.RxElectricPoint)(
+                   (*map(float, xyz), 0.0, 0.0), relative=bool(rel))
+               for xyz, rel, t in zip(case['rec_xyz'], case['rec_rel'], rtypes)]
         self.inputs = []        # (array handed to the survey, pristine copy)
         obs = nested_to_arr(case['observed'], True)
         syn = nested_to_arr(case['synthetic'], True)
@@ -290,8 +292,14 @@ class Impl:
     def names(self, axis, ids):
         if ids is None:
             return None
-        pre = {'sources': 'TxED-', 'receivers': 'RxEP-', 'frequencies': 'f-'}[axis]
-        return [pre + str(i) for i in ids]
+        return [self.name_of(axis, i) for i in ids]
+
+    def name_of(self, axis, i):
+        if axis == 'receivers':
+            if 1 <= i <= len(self.rec_names):
+                return self.rec_names[i - 1]
+            return 'RxEP-' + str(i)
+        return {'sources': 'TxED-', 'frequencies': 'f-'}[axis] + str(i)
 
     # ---- operations
     def apply(self, o):
@@ -519,6 +527,26 @@ def gen_case(rng, malformed=False, thorough=False):
         rec_xyz.append([100 * rng.randint(-9, 9), 100 * rng.choice([0, 0, 3, 4]),
                         -100 * rng.choice([0, 0, 12])])
         rec_rel.append(rel)
+    # receiver types: electric only / magnetic only / mixed in magnetic-first or
+    # interleaved order (NOT all-electric-then-all-magnetic) / mixed electric-first
+    t = rng.random()
+    if nr == 1 or t < 0.25:
+        rec_type = [rng.choice('EEM')] * nr
+    elif t < 0.55:
+        rec_type = ['M'] + [rng.choice('EM') for _ in range(nr - 2)] + ['E']     # magnetic first
+    elif t < 0.85:
+        rec_type = [('M' if (j + (nr > 2)) % 2 else 'E') for j in range(nr)]     # interleaved
+        if rec_type == sorted(rec_type):
+            rec_type = rec_type[::-1]
+    else:
+        k = rng.randint(1, nr - 1)
+        rec_type = ['E'] * k + ['M'] * (nr - k)
+    if nr > 1 and rng.random() < 0.7:
+        # clearly different offsets: spread the receivers, at least one relative, one absolute
+        base = rng.sample([2, 5, 8, 11, 14, 17], nr)
+        rec_xyz = [[100 * b * rng.choice([-1, 1]), 0, 0] for b in base]
+        rec_rel = [False] * nr
+        rec_rel[rng.randrange(nr)] = True
 
     def data(p_nan):
         out = []
@@ -544,6 +572,7 @@ def gen_case(rng, malformed=False, thorough=False):
         return out
     p_nan = rng.choice([0.0, 0.15, 0.35, 0.7])
     case = {'shape': shape, 'src_xyz': src_xyz, 'rec_xyz': rec_xyz, 'rec_rel': rec_rel,
+            'rec_type': rec_type,
             'freqs': [k + 1 for k in range(nq)],
             'observed': data(p_nan), 'synthetic': data(0.05), 'ops': [],
             'malformed': bool(malformed)}
@@ -638,14 +667,21 @@ def gen_op(rng, impl, case, n_setters_first, malformed):
         o = {'op': 'add_noise', 's': s, 'min_offset': 0.0, 'max_offset': None,
              'min_amplitude': 'half_nf', 'add_to': 'observed', 'ntype': 'white_noise',
              'mean_noise': 0.0, 'explicit_defaults': rng.random() < 0.2}
+        mids = [math.floor((a + b) / 2) + 0.5 for a, b in zip(offs[:-1], offs[1:]) if b - a > 2]
+
+        def thr(hi):
+            u = rng.random()
+            if mids and u < 0.45:
+                return float(rng.choice(mids))          # strictly between two offsets
+            if exact and u < 0.8:
+                return float(rng.choice(exact))         # exactly on an offset (strict <, >)
+            return float(100 * rng.randint(1, hi))
         t = rng.random()
-        if t < 0.35:
-            o['min_offset'] = float(rng.choice(exact)) if exact and rng.random() < 0.6 \
-                else float(100 * rng.randint(1, 12))
+        if t < 0.45:
+            o['min_offset'] = thr(12)
         t = rng.random()
-        if t < 0.3:
-            o['max_offset'] = float(rng.choice(exact)) if exact and rng.random() < 0.6 \
-                else float(100 * rng.randint(1, 15))
+        if t < 0.4:
+            o['max_offset'] = thr(15)
         t = rng.random()
         if t < 0.2:
             o['min_amplitude'] = None
@@ -832,6 +868,7 @@ def check_noise_structure(o, extra, sd_model):
 def brief_case(case, upto=None):
     c = {k: case[k] for k in ('shape', 'src_xyz', 'rec_xyz', 'rec_rel', 'freqs',
                               'observed', 'synthetic')}
+    c['rec_type'] = case.get('rec_type') or ['E'] * case['shape'][1]
     c['ops'] = [{k: v for k, v in o.items()} for o in case['ops'][:upto]]
     return c
 
@@ -885,6 +922,17 @@ def compare_history(case, impl, states, outcomes, extras, ans):
                 what = f'outcome: model error kind {ek}, impl {iout}'
         elif iout[0] == 'err':
             what = f'outcome: impl raised {iout[1]}, model succeeded'
+        if what is None and tag == 2 and states[n] is not None and o['s'] < len(msv) \
+                and o['s'] < len(states[n][0]):
+            arr = 'obs' if o['add_to'] == 'observed' else f"named{NAMED[o['add_to']]}"
+            li = by_label(states[n][0][o['s']]).get(arr, {})
+            lm = by_label(msv[o['s']]).get(arr, {})
+            ci = sorted(k for k, v in li.items() if v is None)
+            cm = sorted(k for k, v in lm.items() if v is None)
+            if ci != cm:
+                what, state_diff = ('add_noise: entries that are NaN afterwards differ BY LABEL '
+                                    f'(source, receiver, frequency): only impl {sorted(set(ci) - set(cm))[:4]}, '
+                                    f'only model cut_mask {sorted(set(cm) - set(ci))[:4]}'), True
         if what is None and states[n] is not None:
             d = diff_state(states[n], mstate)
             if d:
@@ -996,6 +1044,7 @@ def fixed_cases():
            [[[0.5, 1.5], [7.0, 1.0]], [[1.0, 1.0], [1.0, 5.0]], [[2.0, 2.0], [1.0, 0.0]]]]
     base = {'shape': [2, 3, 2], 'src_xyz': [[0, 0, 0], [100, 0, 0]],
             'rec_xyz': [[1000, 0, 0], [300, 400, 0], [2000, 0, 0]], 'rec_rel': [False, True, False],
+            'rec_type': ['M', 'E', 'M'],
             'freqs': [1, 2], 'observed': obs, 'synthetic': syn, 'malformed': False}
     nfarr = {'arr': [[[1.0], [2.0], [4.0]]]}
     an = {'op': 'add_noise', 'min_offset': 0.0, 'max_offset': None, 'min_amplitude': 'half_nf',
@@ -1008,7 +1057,7 @@ def fixed_cases():
                           'frequencies': None, 'remove_empty': False},
                          dict(an, s=1, add_to='noise'),
                          {'op': 'dict', 's': 0, 'kind': 1},
-                         dict(an, s=2, min_offset=500.0, max_offset=1900.0)])
+                         dict(an, s=2, min_offset=600.0, max_offset=1900.0)])
     h3 = dict(base, ops=[{'op': 'set_re', 's': 0, 'val': {'arr': [[[0.5, 0.25]]]},
                           'layout': 'arr-freq', 'ctor': True},
                          {'op': 'set_std', 's': 0, 'val': [[[1.0, 2.0], [3.0, 4.0], [5.0, 6.0]],
@@ -1072,6 +1121,7 @@ def run_label_histories(rng, thorough):
         case['src_xyz'] = [[0, 0, 0], [100, 0, 0], [-200, 400, 0]]
         case['rec_xyz'] = [[1000, 0, 0], [300, 400, 0], [2000, 0, 0]][:nr]
         case['rec_rel'] = [False, True, False][:nr]
+        case['rec_type'] = ['M', 'E', 'M'][:nr]
         case['freqs'] = [1, 2]
 
         def cube(p_nan, cplx=True):
@@ -1155,7 +1205,8 @@ def correspondence(ctx):
     res = V.coq_eval_many(texts)
     dis, seen, nontriv = [], set(), set()
     hist = {'ops': {}, 'shapes': {}, 'layouts': {}, 'outcomes': {}, 'malformed_histories': 0,
-            'ntype': {}, 'add_noise_min_amplitude': {}, 'select_name_lists': {}}
+            'ntype': {}, 'add_noise_min_amplitude': {}, 'select_name_lists': {},
+            'receiver_types': {}, 'offset_cuts_on_mixed_unsorted_receivers': 0}
     evaluations = 0
     for f0 in range(0, len(runs), per_file):
         rc, out = res[f"c13_h_{f0 // per_file}"]
@@ -1177,6 +1228,14 @@ def correspondence(ctx):
                 nontriv.add(key)
             hist['shapes'][str(tuple(case['shape']))] = hist['shapes'].get(str(tuple(case['shape'])), 0) + 1
             hist['malformed_histories'] += int(bool(case.get('malformed')))
+            rt = case.get('rec_type') or ['E'] * case['shape'][1]
+            rk = ('electric-only' if set(rt) == {'E'} else 'magnetic-only' if set(rt) == {'M'}
+                  else 'mixed-electric-first' if rt == sorted(rt) else 'mixed-magnetic-first-or-interleaved')
+            hist['receiver_types'][rk] = hist['receiver_types'].get(rk, 0) + 1
+            if rk == 'mixed-magnetic-first-or-interleaved':
+                hist['offset_cuts_on_mixed_unsorted_receivers'] += sum(
+                    1 for o in case['ops'] if o['op'] == 'add_noise'
+                    and (o['min_offset'] > 0 or o['max_offset'] is not None))
             for o, oc in zip(case['ops'], outcomes):
                 hist['ops'][o['op']] = hist['ops'].get(o['op'], 0) + 1
                 if 'layout' in o:
@@ -1208,6 +1267,11 @@ def correspondence(ctx):
                 "unbroadcastable shapes, unknown / duplicate keys). evaluations = operations whose "
                 "post-state was compared on both sides; distinct = distinct (shape, op skeleton); "
                 "non-trivial = has an array-valued noise setting and at least one non-setter op. "
+                "Receivers: electric only / magnetic only / mixed types in magnetic-first or interleaved "
+                "order (55%) / mixed electric-first; absolute and relative receivers at clearly different "
+                "offsets; sources away from the origin; offset thresholds between two offsets, exactly on an "
+                "offset, or random; the NaN pattern after add_noise is compared BY LABEL with the model's "
+                "cut_mask (offsets |rec_center_abs - src_center| from the harness table). "
                 "Name lists of select(): ascending / descending / permuted sub-lists, pure re-orderings, "
                 "repeated and unknown names (also in the valid stream); PLUS an exhaustive label stream: "
                 "on a 3x2x2 (thorough 3x3x2) survey with per-source noise floor, full relative-error array "
@@ -1409,7 +1473,8 @@ def check_selection(impl, o, parent_data, parent_keys, parent_snap, new):
                     'observed': None if got is None else np.array(got).astype(str).tolist(),
                     'required': sub.astype(str).tolist(), 'what': f'data set {k} of the selection'}
     # by label through the xarray coordinates as well (names attached to the data)
-    pk = [[f'{pre}{i}' for i in ids] for pre, ids in zip(('TxED-', 'RxEP-', 'f-'), parent_keys)]
+    pk = [[impl.name_of(ax, i) for i in ids]
+          for ax, ids in zip(('sources', 'receivers', 'frequencies'), parent_keys)]
     for k, arr in parent_data.items():
         da = new.data[k]
         for a in da.src.values.tolist():
